@@ -164,6 +164,7 @@ class Epoch:
                 # the run of computation f raises: identified by the object that is that computation in this slot
                 ids = [i for i, d in sl['objd'].items() if d == act['f']]
                 gen.CTRL['raise'] = {'objs': ids}
+                gen.CTRL['raise_base'] = bool(self.opts.get('interrupt'))
             try:
                 v = t.value
                 try:
@@ -173,10 +174,11 @@ class Epoch:
                         out['value'] = 'dangling'   # a held reference to a result another chain has deleted
                     else:
                         raise
-            except gen.InjectedFailure:
+            except (gen.InjectedFailure, gen.InjectedInterrupt):
                 out['err'] = 'injected'
             finally:
                 gen.CTRL['raise'] = None
+                gen.CTRL['raise_base'] = False
             return out
         if name == 'Force':
             ch = sl['chains'][act['m'] - 1]
